@@ -696,10 +696,16 @@ func (f *transformationCallable) Call(argv []reflect.Value) (reflect.Value, erro
 
 	items = arrayify(items)
 
+	// Only objects that belong to the copy may be modified. The
+	// pattern can also return objects that live elsewhere (e.g.
+	// $$ or a variable bound to part of the input).
+	owned := make(map[uintptr]bool)
+	collectMaps(obj, owned)
+
 	for i := 0; i < items.Len(); i++ {
 
 		item := jtypes.Resolve(items.Index(i))
-		if !jtypes.IsMap(item) {
+		if !jtypes.IsMap(item) || !owned[item.Pointer()] {
 			continue
 		}
 
@@ -715,6 +721,22 @@ func (f *transformationCallable) Call(argv []reflect.Value) (reflect.Value, erro
 	}
 
 	return obj, nil
+}
+
+// collectMaps records the identity of every map reachable from v.
+func collectMaps(v reflect.Value, maps map[uintptr]bool) {
+	v = jtypes.Resolve(v)
+	switch {
+	case jtypes.IsMap(v):
+		maps[v.Pointer()] = true
+		for _, k := range v.MapKeys() {
+			collectMaps(v.MapIndex(k), maps)
+		}
+	case jtypes.IsArray(v):
+		for i := 0; i < v.Len(); i++ {
+			collectMaps(v.Index(i), maps)
+		}
+	}
 }
 
 func (f *transformationCallable) validateArgs(argv []reflect.Value) error {
